@@ -236,6 +236,8 @@ def r14_3(ctx, prog, crate):
         for s in srcs:
             if s.kind == "call" and s.a == "std::option::Option::or":
                 oc = b.call_at(s.b)
+                if "Option<bool>" not in oc.dest["ty"]:
+                    continue    # an `or` between option *sets* (e.g. child_options.or(parent_options)), not the ignore decision
                 a0 = {x.label() for x in b.prov.op_src(oc.args[0])}
                 ctx.check(a0 == {"param:self.bench_options.ignore"}, "R14.3", [b.path, "runner-has-priority"],
                           "Option::or receiver is %s, expected self.bench_options.ignore (run time overrides attributes)" % sorted(a0), oc.line())
@@ -260,7 +262,7 @@ def r14_3(ctx, prog, crate):
                 if "param:self.bench_options" in a0 or any(l.startswith("param:self") for l in a0):
                     ctx.check(a0 == {"param:self.bench_options"}, "R14.3", [b.path, "runner-has-priority"],
                               "overwrite receiver is %s, expected self.bench_options" % sorted(a0), oc.line())
-        if not any(s.kind == "call" and s.a == "std::option::Option::or" for s in srcs):
+        if not any(s.kind == "call" and s.a == "std::option::Option::or" and "Option<bool>" in b.call_at(s.b).dest["ty"] for s in srcs):
             ctx.check("ignore" in fields or any(s.kind == "call" and s.a == "benchmark::options::BenchOptions::overwrite" for s in srcs),
                       "R14.3", [b.path, "ignore-field"], "the decision is not read from an `ignore` field", c.line())
             # direct field read of the merged options
